@@ -270,7 +270,7 @@ def _preorder_key(ck, fn, spec, w):
     if items is not None and not strand:
         monos = {m[0]: c for m, c in items.items() if len(m) == 1}
         ok = len(monos) == len(items) and set(monos) == coords and all(c > 0 for c in monos.values())
-    ck.judge(ok and desc == C(False), "C14.6", short(fn) + ":pre-order", w,
+    ck.judge(ok and desc == C(False), "C14.6", short(fn) + (":pre-order:strand" if strand else ":pre-order"), w,
              "pre-order key = positive combination of reference start/end and query start/end, ascending, the same on both strands"
              + (" (the key reads the strand / label numbers: on '-' the mirrored query coordinates ascend like the forward ones)" if strand else ""),
              found=T.show(body)[:240], required="start.reference + end.reference + start.query + end.query")
